@@ -1,6 +1,7 @@
 """Checker-sensitivity run (thorough tier only): apply every recorded breaking change (seeded/<ID>-*/patch.diff) and every
 behaviour-preserving twin (twins/<ID>-*/patch.diff) for the property to a scratch copy of the CURRENT /repo source, run the
-same rules on it, and record which are detected / stay silent.  The result goes into the evidence (`sensitivity`); it never
+same rules on it, and record which are detected / stay silent. A change that no longer applies because a later fix: commit
+touched the same lines is evaluated on the newest ancestor commit of /repo it applies to, relative to that tree's own report.  The result goes into the evidence (`sensitivity`); it never
 turns into a VIOLATION of the property - it measures the checker, not the repository.
 
 Scratch copies are created with tempfile.mkdtemp() and removed before the function returns."""
@@ -38,10 +39,15 @@ def _run_rules(prop: str, root: str):
             known |= set(([k["key"]] if "key" in k else []) + list(k.get("keys", [])))
     unlisted = [v for v in ctx.violations if v["key"] not in known]
     if unlisted:
-        return "violation", [f"{v['rule']} {v['construct']}"[:160] for v in unlisted[:3]]
+        return "violation", [f"{v['rule']} {v['construct']}"[:160] for v in unlisted]
     if ctx.unmet_floors:
         return "analysis-error", ctx.unmet_floors[:2]
     return "silent", []
+
+
+def _ancestors(repo_root: str) -> list[str]:
+    r = subprocess.run(["git", "-C", repo_root, "log", "--format=%H", "-n", "40"], capture_output=True, text=True)
+    return r.stdout.split()[1:] if r.returncode == 0 else []
 
 
 def _variant(repo_root: str, patch: str, prop: str):
@@ -49,9 +55,29 @@ def _variant(repo_root: str, patch: str, prop: str):
     try:
         shutil.copytree(os.path.join(repo_root, "flow"), os.path.join(d, "flow"), ignore=shutil.ignore_patterns("__pycache__"))
         ap = subprocess.run(["git", "apply", patch], cwd=d, capture_output=True, text=True)
-        if ap.returncode != 0:
-            return "skipped", ["patch no longer applies to the current tree"]
-        return _run_rules(prop, d)
+        if ap.returncode == 0:
+            status, detail = _run_rules(prop, d)
+            return status, detail[:3]
+        # The change was recorded against an earlier commit and a later fix: commit touched the same lines. It is evaluated where it was
+        # written: on the newest ancestor it applies to, and only what the change ADDS to that ancestor's own report counts.
+        for commit in _ancestors(repo_root):
+            shutil.rmtree(os.path.join(d, "flow"), ignore_errors=True)
+            ar = subprocess.run(f"git -C {repo_root} archive {commit} flow | tar -x -C {d}", shell=True, capture_output=True, text=True)
+            if ar.returncode != 0:
+                continue
+            if subprocess.run(["git", "apply", "--check", patch], cwd=d, capture_output=True, text=True).returncode != 0:
+                continue
+            b_status, b_detail = _run_rules(prop, d)
+            subprocess.run(["git", "apply", patch], cwd=d, capture_output=True, text=True)
+            p_status, p_detail = _run_rules(prop, d)
+            note = f"(evaluated on ancestor {commit[:7]}, relative to that tree's own report)"
+            if p_status == "violation":
+                added = [x for x in p_detail if x not in set(b_detail if b_status == "violation" else [])]
+                return ("violation", added[:3] + [note]) if added else ("silent", [note])
+            if p_status == "analysis-error" and b_status != "analysis-error":
+                return "analysis-error", p_detail[:2] + [note]
+            return "silent", [note]
+        return "skipped", ["patch applies neither to the current tree nor to one of its last 40 ancestors"]
     finally:
         shutil.rmtree(d, ignore_errors=True)
 
